@@ -15,5 +15,6 @@ def run(ctx):
         ctx, "C38", scenarios=[2, 3, 8], impls=['basicmutable', 'overlay-basic', 'overlay-mutable', 'overlay-empty'],
         sections=['mutate'],
         select=lambda e: e['ev']['op'] == 'mutate',
+        end_walks=((300, 7, 'mutate'), (5000, 10, 'mutate')),
         meta_rule='every MutateCallerCopy transition executed via its shortest prefix on 4 world constructions + random walks',
         assumptions=[])
